@@ -76,6 +76,35 @@ def decKwShape (s0 s1 nd k0 k1 ax : V) : Option KwShape := do
   let s0 ← s0.nat?; let s1 ← s1.opt? V.nat?; let nd ← nd.nat?; let k0 ← k0.nat?; let k1 ← k1.opt? V.nat?; let ax ← decAxis ax
   pure ⟨s0, s1, nd, k0, k1, ax⟩
 
+def decKw (v : V) : Option (Kw Nat) :=
+  match v with
+  | .atom "None" => some .none
+  | .list [.atom "one", o] => o.nat?.map Kw.one
+  | .list [.atom "many", os] => (os.listOf? V.nat?).map Kw.many
+  | _ => none
+def decAxis3 (v : V) : Option Axis3 :=
+  match v with | .atom "0" => some .a0 | .atom "1" => some .a1 | .atom "a01" => some .a01 | _ => none
+/-- tags: a result records which signals and which option set it was computed from, and the epoch index. -/
+abbrev Tag := List Nat × Nat × Nat
+def encTag (t : Tag) : V := .list [encList encNat t.1, encNat t.2.1, encNat t.2.2]
+def tagAnalyse (s : Nat) (o : Nat) : Tag := ([s], o, 0)
+def tagEpochs (xs : List Nat) (o : Nat) : List Tag := (List.range xs.length).map fun e => (xs, o, e)
+def decFRow (v : V) : Option (FRow Nat) :=
+  match v with
+  | .list [i, r] => do let i ← i.nat?; let r ← decRow r; pure ⟨r, i⟩
+  | _ => none
+def encFRow (r : FRow Nat) : V := .list [encNat r.payload, encRow r.s]
+/-- C13 statement: epoch e holds exactly the rows whose closing side extremum lies in (e·L, (e+1)·L], in order, shifted by e·L. -/
+def epochSpec (rows : List (FRow Nat)) (sigLen L : Nat) : List (List (FRow Nat)) :=
+  (List.range ((sigLen + L - 1) / L)).map fun e =>
+    (rows.filter fun r => decide (((e * L : Nat) : Int) < r.s.nextTrough) && decide (r.s.nextTrough ≤ (((e + 1) * L : Nat) : Int))).map
+      fun r => r.shift ((e * L : Nat) : Int)
+/-- C18 statement for limit_df. -/
+def limitSpec (rows : List (FRow Nat)) (fsStart : Rat) (fsStop : Option Rat) (off : Int) (reset : Bool) : List (FRow Nat) :=
+  let kept := rows.filter fun r => decide (fsStart ≤ (r.s.lastTrough : Rat)) &&
+    (match fsStop with | some st => decide ((r.s.nextTrough : Rat) ≤ st) | none => true)
+  if reset then kept.map (·.shift off) else kept
+
 def handle (args : List V) : V :=
   match args with
   | [.atom "ping"] => .atom "pong"
@@ -242,6 +271,67 @@ def handle (args : List V) : V :=
       .list [if chk then .list [.atom "ok", .atom "unit"] else encErr .valueError,
              if grp then .list [.atom "ok", .atom "unit"] else encErr .valueError]
     | _, _ => bad "kwshape.spec"
+  -- C11 / C12
+  | [.atom "group2d.model", n, kw, sg] =>
+    match n.nat?, decKw kw, sg.listOf? V.nat? with
+    | some n, some kw, some sg => encList encTag (features2d tagAnalyse id 0 sg (List.range n) kw)
+    | _, _, _ => bad "group2d.model"
+  | [.atom "group2d.spec", n, kw] =>
+    match n.nat?, decKw kw with
+    | some n, some kw => encList encTag (features2dSpec tagAnalyse id 0 (List.range n) kw)
+    | _, _ => bad "group2d.spec"
+  | [.atom "group3d.model", n0, n1, kw, ax, sg] =>
+    match n0.nat?, n1.nat?, decKw kw, decAxis3 ax, sg.listOf? V.nat? with
+    | some n0, some n1, some kw, some ax, some sg =>
+      let grid := (List.range n0).map fun i => (List.range n1).map fun j => i * n1 + j
+      encList (encList encTag) (features3d tagAnalyse tagEpochs id 0 sg n0 n1 grid kw ax)
+    | _, _, _, _, _ => bad "group3d.model"
+  | [.atom "group3d.spec", n0, n1, kw, ax] =>
+    match n0.nat?, n1.nat?, decKw kw, decAxis3 ax with
+    | some n0, some n1, some kw, some ax =>
+      let opt := fun (i : Nat) => match kw with | .none => 0 | .one o => o | .many os => os.getD i 0
+      encList (encList encTag) ((List.range n0).map fun i => (List.range n1).map fun j =>
+        match ax with
+        | .a01 => ([i * n1 + j], opt (i * n1 + j), 0)
+        | .a0 => ((List.range n1).map fun j' => i * n1 + j', opt i, j)
+        | .a1 => ((List.range n0).map fun i' => i' * n1 + j, opt j, i))
+    | _, _, _, _ => bad "group3d.spec"
+  -- C13
+  | [.atom "epoch.model", rows, n, l] =>
+    match rows.listOf? decFRow, n.nat?, l.nat? with
+    | some rows, some n, some l => if l = 0 then bad "epoch_len 0" else encList (encList encFRow) (epochDf rows n l)
+    | _, _, _ => bad "epoch.model"
+  | [.atom "epoch.spec", rows, n, l] =>
+    match rows.listOf? decFRow, n.nat?, l.nat? with
+    | some rows, some n, some l => if l = 0 then bad "epoch_len 0" else encList (encList encFRow) (epochSpec rows n l)
+    | _, _, _ => bad "epoch.spec"
+  | [.atom "flat.relabel", nk, nEpochs] =>
+    -- which option set re-labels each epoch (0 = none, i.e. the labels of the flattened analysis stay)
+    match nk.nat?, nEpochs.nat? with
+    | some nk, some ne =>
+      let eps : List (List (FRow Nat)) := List.replicate ne []
+      let r := featuresFlat (P := Nat) (O := Nat) (fun _ => []) (fun o _ => [⟨default, o⟩]) ((List.range nk).map (· + 1)) 0 (ne) 1
+      let _ := eps
+      encList (fun t => match t with | [x] => encNat x.payload | _ => encNat 0) r
+    | _, _ => bad "flat.relabel"
+  -- C18
+  | [.atom "limitdf.model", rows, a, b, off, reset] =>
+    match rows.listOf? decFRow, a.rat?, b.opt? V.rat?, off.int?, reset.bool? with
+    | some rows, some a, some b, some off, some reset => encList encFRow (limitDf rows a b off reset)
+    | _, _, _, _, _ => bad "limitdf.model"
+  | [.atom "limitdf.spec", rows, a, b, off, reset] =>
+    match rows.listOf? decFRow, a.rat?, b.opt? V.rat?, off.int?, reset.bool? with
+    | some rows, some a, some b, some off, some reset => encList encFRow (limitSpec rows a b off reset)
+    | _, _, _, _, _ => bad "limitdf.spec"
+  | [.atom "limitsig.model", times, a, b] =>
+    match times.listOf? V.rat?, a.opt? V.rat?, b.opt? V.rat? with
+    | some t, some a, some b => encList encNat (limitSignal t a b)
+    | _, _, _ => bad "limitsig.model"
+  | [.atom "limitsig.spec", times, a, b] =>
+    match times.listOf? V.rat?, a.opt? V.rat?, b.opt? V.rat? with
+    | some t, some a, some b => encList encNat ((List.range t.length).filter fun i =>
+        (match a with | some a => decide (a ≤ t.getD i 0) | none => true) && (match b with | some b => decide (t.getD i 0 < b) | none => true))
+    | _, _, _ => bad "limitsig.spec"
   | _ => bad "unknown-command"
 
 partial def loop (hin : IO.FS.Stream) (hout : IO.FS.Stream) : IO Unit := do
